@@ -321,3 +321,4 @@ def run(ctx):
     pc = ctx.body('db::Db::precheck_column_operation')
     if pc:
         lib.must_pass(ctx, '4k precheck-opens-db', pc, pc.call_sites('db::Db::open'), 'precheck_column_operation opens the database with the caller\'s options')
+    shared.one_salt_per_handle(ctx, '5')
